@@ -440,6 +440,9 @@ def check_frozen(model, rep):
 
 
 def check(model, rep):
+    # hidden state Python keeps outside the objects (not modelled by the evaluator): reported before anything else is evaluated
+    from checks.solver_common import package_lints as _package_lints
+    _package_lints(model, rep, 'C20.hidden-state', ('/powertrain.py', '/utils/relations.py', '/mechanical_objects/worm_gear.py'))
     rep.explain('C20: Powertrain.__init__ is evaluated abstractly on every concrete chain of 2..5 elements (spur gears, self-locking and '
                 'reversible worm gears, with and without driven_by back-links) and every pattern of equal/distinct names: the stored '
                 'tuple is the drives-chain in order, the frozen flag is the disjunction over the worm gears, duplicates / a motor driving '
